@@ -451,6 +451,11 @@ func evalConstructorDeclareStmt(vm *r.VM, node *syntax.FunctionDeclareStmt) erro
 	if module != vm.GetCurrentModule() {
 		return zerr.InvalidClassType(className.GetLiteral())
 	}
+	// the NAME may be a local one (an input, a variable) that merely holds a type: what
+	// counts is the module that declares the type itself
+	if cmodel.GetModule() != vm.GetCurrentModule() {
+		return zerr.InvalidClassType(className.GetLiteral())
+	}
 
 	//// there are some different Factors from normal method function:
 	// 1. no outerScope (clousure scope)
